@@ -319,6 +319,18 @@ def search(ctx):
                         ctx.violation("C16:tiff-quantisation", "TIFF round trip off by %.4g > stated quantisation %.4g" % (dev, rng_ * 0.500001 / 255), dict(info, kind="tiff"))
                     if not np.allclose(get_spacing(back), get_spacing(im), rtol=1e-12, atol=0) or not all(_attrs_equal(back.attrs.get(k), im.attrs.get(k)) for k in ('medium_index', 'illum_wavelen', 'noise_sd')):
                         ctx.violation("C16:tiff-metadata", "TIFF round trip lost spacing or metadata", dict(info, kind="tiff"))
+                    # an EXPLICIT scaling wider than the data (the same grey scale for a whole series of images): the stated quantisation
+                    # is then half a level of the given range, and the values come back within it
+                    if i % 3 == 1:
+                        lo_s, hi_s = float(vals.min()) - 0.3 * rng_ - 0.1, float(vals.max()) + 0.6 * rng_ + 0.2
+                        ctx.tried("tiff-explicit-scaling", (shape, i))
+                        paths_ = os.path.join(WORK, "img%d_scaled.tif" % i)
+                        save_image(paths_, im, scaling=(lo_s, hi_s))
+                        backs = hp.load(paths_)
+                        devs = float(np.abs(backs.values.squeeze() - vals).max())
+                        if not (devs <= (hi_s - lo_s) * 0.500001 / 255 * (1 + 1e-9) + 1e-12 * abs(vals).max()):
+                            ctx.violation("C16:tiff-quantisation:explicit-scaling", "TIFF written with scaling=(%.4g, %.4g) for data in [%.4g, %.4g]: reloaded values off by %.4g > stated quantisation %.4g" % (
+                                lo_s, hi_s, float(vals.min()), float(vals.max()), devs, (hi_s - lo_s) * 0.5 / 255), dict(info, kind="tiff-scaling", scaling=[lo_s, hi_s]))
                     # deeper files: the stated quantisation is one level of 2^15 - 1 (16 bit, signed) or 2^31 - 1 (32 bit)
                     if i % 2 == 0:
                         for depth, levels in ((16, 2 ** 15 - 1), (32, 2 ** 31 - 1)):
